@@ -163,9 +163,12 @@ def _next_schedule(schedule, arity):
     return None
 
 
-def enumerate_case(contract, case, evaluate, maxlen, cap, seed, stop_after_failures=5):
-    """Run `evaluate(S)` (-> result dict with 'outcome' and 'clauses') over the family of `case`."""
-    stats = {"evaluations": 0, "rejected_by_requires": 0, "outcomes": {}, "classes": set(), "failures": [],
+def enumerate_case(contract, case, evaluate, maxlen, cap, seed, stop_after_failures=5, time_limit=None):
+    """Run `evaluate(S)` (-> result dict with 'outcome' and 'clauses') over the family of `case`.  `time_limit` (seconds) ends the
+    enumeration early: the bound then reported is what was evaluated (`stopped_by_time_limit`), never `exhaustive`."""
+    import time as _time
+    t_end = None if not time_limit else _time.time() + time_limit
+    stats = {"stopped_by_time_limit": False, "evaluations": 0, "rejected_by_requires": 0, "outcomes": {}, "classes": set(), "failures": [],
              "exhaustive": False, "sampled": 0, "errors": []}
 
     def one(S):
@@ -203,15 +206,21 @@ def enumerate_case(contract, case, evaluate, maxlen, cap, seed, stop_after_failu
     n = 0
     first = max(cap // 3, 1)
     while schedule is not None and n < first:
+        if t_end is not None and n % 16 == 0 and _time.time() > t_end:
+            stats["stopped_by_time_limit"] = True
+            break
         S = FamilySpec(list(schedule), maxlen)
         one(S)
         n += 1
         schedule = _next_schedule(S.schedule, S.arity)
     if schedule is None:
         stats["exhaustive"] = True
-    else:
+    elif not stats["stopped_by_time_limit"]:
         rng = random.Random(seed)
-        for _ in range(cap - first):
+        for k in range(cap - first):
+            if t_end is not None and k % 16 == 0 and _time.time() > t_end:
+                stats["stopped_by_time_limit"] = True
+                break
             S = FamilySpec([], maxlen, rng=rng)
             one(S)
             stats["sampled"] += 1
